@@ -155,6 +155,11 @@ def drift_of(scen, sessions):
                     d["first"]["SC"] = d["zero"]["SC"] = None
                     if re_["first"]["SA"] == -4:
                         d["first"]["SA"] = d["zero"]["SA"] = None
+            if me["first"].get("SC") == -2 and re_.get("first", {}).get("SC") == -1:
+                # SC rides in the fraction of SA's channel (1/1024 of a code unit): under two stacked fades (its own track's and an
+                # ancestor's, about -30 dB each after one chunk) it falls below the driver's silence threshold - no claim either way
+                for d in (me, re_):
+                    d["first"]["SC"] = d["zero"]["SC"] = None
             if any(me[x] != re_.get(x) for x in keys):
                 out.append({"session": k + 1, "step": j, "model": {x: me[x] for x in keys}, "real": {x: re_.get(x) for x in keys}})
                 break
